@@ -214,6 +214,18 @@ func runFixtures(c *core.Ctx, engines ...string) {
 				}
 				c.FixtureResult("notexist:"+tc.name, tc.want, sites[0].bad)
 			}
+		case "dirnamed":
+			for _, tc := range []struct {
+				name string
+				want bool
+			}{{"BadDirNamed", true}, {"GoodNamed", false}} {
+				f := fn(tc.name)
+				if f == nil {
+					c.Hard("fixture function %s missing", tc.name)
+					continue
+				}
+				c.FixtureResult("dirnamed:"+tc.name, tc.want, len(dirNamedSites(fp, []*ssa.Function{f})) == 1)
+			}
 		case "paging":
 			for _, tn := range []string{"GoodDir", "BadDir"} {
 				n := fp.Named("", tn)
